@@ -133,8 +133,6 @@ EvalcallClauses(x, ev) ==
         THEN <<<<"C13", "C13:fitness-without-invocation">>>> ELSE <<>>)
     \o (IF ev.count_after - ev.count_before # Len(ev.ffcalls)
         THEN <<<<"C13", "C13:counter#invocations">>>> ELSE <<>>)
-    \o (IF [k \in DOMAIN ev.inds |-> ev.inds[k].id] # ev.yielded
-        THEN <<<<"C13", "C13:evaluator-drops-individual">>>> ELSE <<>>)
 
 EvalpairClauses(x, ev) == IF ev.seq # ev.par THEN <<<<"C13", "C13:parallel#sequential">>>> ELSE <<>>
 
@@ -147,9 +145,10 @@ AllClauses(x, ev) ==
       [] ev.e = "ret"   -> RetClauses(x, ev)
       [] ev.e = "lasso" -> LassoClauses(x, ev)
       [] ev.e = "present" -> <<>>
-      \* every individual handed to tracker.evaluate is post-processed (registered), in order,
-      \* whether or not it already had a fitness
-      [] ev.e = "endpresent" -> IF x.cur # ev.ids THEN <<<<"C12", "C12:presented-not-registered">>>> ELSE <<>>
+      [] ev.e = "endpresent" ->
+           \* after tracker.evaluate(batch) returned, the reported best is at least as good as EVERY individual
+           \* evaluated so far (whether the tracker or a step-like direct evaluator call evaluated it)
+           IF \E k \in DOMAIN x.ffret : Agg(x.ffret[k], Mini) > ev.bestagg THEN <<<<"C12", "C12:tracker-best">>>> ELSE <<>>
       [] ev.e = "evalcall" -> EvalcallClauses(x, ev)
       [] ev.e = "evalpair" -> EvalpairClauses(x, ev)
       [] OTHER -> <<<<Prop, "unknown-event">>>>
